@@ -3,6 +3,9 @@ use rustfmt_nightly::{Config, EmitMode, Input, Session, Verbosity};
 use serde_json::{json, Value};
 
 pub struct FmtOut {
+    /// (line, kind, found, max) of every report entry and the ranges of lines that were not formatted
+    pub entries: Vec<(usize, u8, usize, usize)>,
+    pub skipped: Vec<(usize, usize)>,
     pub output: Option<String>,
     pub flags: Value,
     pub err: Option<String>,
@@ -40,12 +43,14 @@ pub fn format_text(text: &str, config: Config) -> FmtOut {
     };
     match res {
         Ok(report) => FmtOut {
+            entries: rustfmt_nightly::verif_hooks::report_entries(&report).0.iter().map(|e| (e.1, e.2, e.3, e.4)).collect(),
+            skipped: rustfmt_nightly::verif_hooks::report_entries(&report).2,
             output: Some(String::from_utf8_lossy(&out).into_owned()),
             flags,
             err: None,
             report: if report.has_warnings() { format!("{}", rustfmt_nightly::FormatReportFormatterBuilder::new(&report).build()) } else { String::new() },
         },
-        Err(e) => FmtOut { output: None, flags, err: Some(format!("{e}")), report: String::new() },
+        Err(e) => FmtOut { entries: vec![], skipped: vec![], output: None, flags, err: Some(format!("{e}")), report: String::new() },
     }
 }
 
